@@ -271,6 +271,12 @@ fn main() {
         println!("NONE evaluations={} distinct={}", evals, distinct.len());
         return;
     }
+    if args.len() >= 3 && args[1] == "checks" {
+        // replay checks <PID>: the names of the differential checks that cover a property
+        let names: Vec<&str> = search::checks_for(&args[2]).iter().map(|c| c.0).collect();
+        println!("{}", names.join(" "));
+        return;
+    }
     if args.len() >= 4 && args[1] == "case" {
         // replay case <check> <tape-hex>
         let chk = match search::check_by_name(&args[2]) { Some(c) => c, None => { eprintln!("unknown check"); std::process::exit(2) } };
